@@ -171,6 +171,10 @@ def gen(rng, tier):
     for i in range(300 if tier == "quick" else 20000):
         v = wifs[i % len(wifs)]
         k = rand_priv(rng, "secp256k1")
+        if i % 10 == 3:
+            k = k[:-1] + b"\x01"          # a key ending with the value of the compression suffix
+        elif i % 10 == 7:
+            k = b"\x00" + k[1:]
         c = str(i % 2)
         yield Case("wifenc", [hx(k), hx(v), c], "wif-enc")
         s = WifEncoder.Encode(k, v, WifPubKeyModes.COMPRESSED if c == "1" else WifPubKeyModes.UNCOMPRESSED)
